@@ -470,12 +470,16 @@ class Ctx:
         self.int_atoms = set()             # atoms known to be integers
         self.origin = None                 # function in which the next facts are learned (set by the interpreter)
         self.origins = {}                  # fact -> function path where it was first assumed
+        self.origin_stack = None           # call stack (function paths, entry first) at that point
+        self.origin_stacks = {}            # fact -> call stack where it was first assumed
 
     def copy(self):
         c = Ctx(self.ranges, self.facts, self.tables)
         c.int_atoms = set(self.int_atoms)
         c.origin = self.origin
         c.origins = dict(self.origins)
+        c.origin_stack = self.origin_stack
+        c.origin_stacks = dict(self.origin_stacks)
         c.elem_bounds = dict(self.elem_bounds)
         c.sym_deps = dict(self.sym_deps)
         return c
@@ -1131,6 +1135,8 @@ class Ctx:
         self.facts.append(b)
         if self.origin is not None:
             self.origins.setdefault(b, self.origin)
+            if self.origin_stack is not None:
+                self.origin_stacks.setdefault(b, self.origin_stack)
         if k[0] == 'cmp':
             self._refine(k[1], k[2])
             if k[1] in ('<', '<=', '=='):
